@@ -24,17 +24,28 @@ with the fuel-free `specDescLoop` (`desc_iter_tiles`) and by `desc_iter_fuel_irr
 `languages_fuel_irrelevant`: every fuel above the buffer length gives the same result.
 
 Scope and readings (review C):
-* Typed descriptors are verified as raw bytes / bit fields.  NOT modelled (so nothing is claimed
-  about them): `AudioType::from` (the model keeps the raw `audio_type` byte), `Language::code`
-  (latin-1 decoding; the model keeps the 3 raw bytes), `FormatIdentifier::from` / `is_format`
-  (external crate; the model keeps the 4 raw bytes).
+* Typed descriptors are verified as raw bytes / bit fields: `LangItem.lang` carries the 3 raw code
+  bytes and the raw `audio_type` byte, `regFields` the 4 raw identifier bytes.  The two value
+  conversions of the ISO 639 descriptor are modelled SEPARATELY, as functions of those raw values:
+  `AudioType::from` is `Tables.audioTypeOf` (`Ts.Props.Ties.audio_type_exact`,
+  `audio_type_keeps_value`) and `Language::code` (latin-1 decoding) is `Tables.langCodePoints`
+  (`Ts.Props.Ties.lang_code_points`); the theorems of this file do not compose them with
+  `languages_exact`.  NOT modelled (nothing is claimed): `FormatIdentifier::from` / `is_format`
+  (external crate `smptera-format-identifiers-rust`; the model keeps the 4 raw bytes).
 * `DescErr` carries no payload (`DescriptorError::NotEnoughData { tag, actual, expected }` etc. are
   collapsed), so a typed payload that is too short and a trailing incomplete descriptor both appear
   as `.err .notEnoughData`; `desc_iter_tiles` tells them apart by position.
 * `tag_variant_table` compares the code with the crate's own documentation; `tag_table_iso13818_1*`
   compare it with ISO/IEC 13818-1 Table 2-45, typed in independently.
-* Not tied to regenerated constants (none exists): the fixed-part lengths 4, 3, 4 of
-  `typedMinLength` and the language item size 4.
+* Ties to regenerated constants (`Ts/Props/Ties.lean`): the fixed-part lengths 4, 3, 4 of the typed
+  constructors are `tie_typed_descriptor_min_len` (`Gen.registrationMinLen`, `maxBitrateMinLen`,
+  `avcVideoMinLen` in `typedNew`; this file's `typedMinLength` is the SPEC's copy, related to
+  `typedNew` by `typed_accept_iff`), the language item size 4 is `tie_language_item_size`.
+  NOT tied (no regenerated constant exists): the descriptor header size 2 (`tag`, `length`:
+  `coreFromBytes`, `descIter`), the typed tags 5 / 10 / 14 / 40 as `Self::TAG` (the tag → payload-type
+  table IS regenerated: `tie_payload_types`), the factors `50 * 8` of
+  `maximum_bits_per_second` (`tie_max_bitrate_unit` compares the 50 with `EsRate`'s constant only),
+  the byte offsets and masks of `avcFields` / `maxBitrateFields`.
 -/
 namespace Ts.Props.C17
 open Ts Ts.Spec Ts.Tables Ts.Spec.TableSpec Ts.Lemmas.C16 Ts.Lemmas.C17 Ts.Lemmas.RevC
@@ -162,6 +173,17 @@ example : coreFromBytes [0x05] = .ok (.err .bufferTooShort)
 theorem reg_fields_exact (p : Bytes) (h : typedNew 5 p = .ok (.ok ())) :
     regFields p = .ok (p.take 4, p.drop 4) :=
   regFields_eq p ((typed_accept_iff 5 p).2.1 h)
+
+/-- instance of `reg_fields_exact`: the hypothesis holds for the 6-byte payload "CUEI" + 2 bytes of
+additional identification info, and the two sides evaluate to the split after 4 bytes; a 4-byte
+payload has empty additional info; a 3-byte payload does not satisfy the hypothesis -/
+example : typedNew 5 [0x43, 0x55, 0x45, 0x49, 0xAA, 0xBB] = .ok (.ok ()) ∧
+    regFields [0x43, 0x55, 0x45, 0x49, 0xAA, 0xBB] = .ok ([0x43, 0x55, 0x45, 0x49], [0xAA, 0xBB]) ∧
+    regFields [0x43, 0x55, 0x45, 0x49] = .ok ([0x43, 0x55, 0x45, 0x49], []) ∧
+    typedNew 5 [0x43, 0x55, 0x45] = .ok (.error .notEnoughData) := ⟨rfl, rfl, rfl, rfl⟩
+example : regFields [0x43, 0x55, 0x45, 0x49, 0xAA, 0xBB]
+    = .ok (([0x43, 0x55, 0x45, 0x49, 0xAA, 0xBB] : Bytes).take 4, ([0x43, 0x55, 0x45, 0x49, 0xAA, 0xBB] : Bytes).drop 4) :=
+  reg_fields_exact _ rfl
 
 /-- `MaximumBitrateDescriptor`: maximum_bitrate = bits 2..24; ×400 never overflows `u32` -/
 theorem max_bitrate_exact (p : Bytes) (h : typedNew 14 p = .ok (.ok ())) :
